@@ -39,7 +39,9 @@ import EdbVerif.Lemmas.QuoteConst
 import EdbVerif.Lemmas.QuoteBytes
 import EdbVerif.Lemmas.QuoteIdent
 import EdbVerif.Lemmas.QuotePg
+import EdbVerif.Lemmas.QuotePgName
 import EdbVerif.Lemmas.QuoteAll
+import EdbVerif.Lemmas.QuoteDollarTotal
 import EdbVerif.Model.QuoteOld
 
 namespace EdbVerif.C18
@@ -74,10 +76,16 @@ theorem edgeql_str_nul_rejected (U : UClass) :
 /-- `dollar_quote_literal` is read back as one string token with the original
     value for EVERY text a dollar string can carry (`dollarExpressible`: no NUL,
     no bidi control — a dollar string has no escapes), whatever follows. -/
-theorem edgeql_dollar (U : UClass) (s q rest : List Char)
-    (hq : dollarQuoteLiteral s = some q) (h : dollarExpressible s = true) :
-    lexOne U (q ++ rest) = .ok (strTok s, rest) :=
-  dollarQuote_lex U s q rest hq h
+theorem edgeql_dollar (U : UClass) (s rest : List Char) (h : dollarExpressible s = true) :
+    ∃ q, dollarQuoteLiteral s = some q ∧ lexOne U (q ++ rest) = .ok (strTok s, rest) := by
+  obtain ⟨q, hq⟩ := dollarQuoteLiteral_isSome s
+  exact ⟨q, hq, dollarQuote_lex U s q rest hq h⟩
+
+/-- The `while` loop of `dollar_quote_literal` always ends within
+    `len(text) + 2` candidates (the fuel of the model is never exhausted): each
+    rejected candidate occupies its own `$` position of the text. -/
+theorem edgeql_dollar_total (s : List Char) : ∃ q, dollarQuoteLiteral s = some q :=
+  dollarQuoteLiteral_isSome s
 
 /-- The loop of `dollar_quote_literal` only ever settles on `$$` or on a tag
     `$<hex, least significant digit first, starting with a–f>$`, and the tag
@@ -93,10 +101,13 @@ theorem edgeql_dollar_tag (s t : List Char) (h : dollarTag s = some t) :
     `$tag$…$tag$` or the escaped `quote_literal` form — is read back as one
     string token with the original value for EVERY string without NUL,
     whatever follows. -/
-theorem edgeql_const (U : UClass) (s q rest : List Char)
-    (hq : ppStr s = some q) (h : noNul s = true) :
-    lexOne U (q ++ rest) = .ok (strTok s, rest) :=
-  ppStr_lex U s q rest hq (by simpa [noNul, constExpressible] using h)
+theorem edgeql_const (U : UClass) (s rest : List Char) (h : noNul s = true) :
+    ∃ q, ppStr s = some q ∧ lexOne U (q ++ rest) = .ok (strTok s, rest) := by
+  obtain ⟨q, hq⟩ := ppStr_isSome s
+  exact ⟨q, hq, ppStr_lex U s q rest hq (by simpa [noNul, constExpressible] using h)⟩
+
+/-- `visit_Constant` always prints something (no fuel artefact) -/
+theorem edgeql_const_total (s : List Char) : ∃ q, ppStr s = some q := ppStr_isSome s
 
 /-! ## EdgeQL bytes literal: `visit_BytesConstant` -/
 
@@ -138,15 +149,15 @@ theorem edgeql_str_single (U : UClass) (s : List Char) (h : noNul s = true) :
     lexAll U (quoteLiteral s) = ([strTok s], none) :=
   quoteLiteral_lexAll U s (by simpa [noNul] using h)
 
-theorem edgeql_dollar_single (U : UClass) (s q : List Char)
-    (hq : dollarQuoteLiteral s = some q) (h : dollarExpressible s = true) :
-    lexAll U q = ([strTok s], none) :=
-  dollarQuote_lexAll U s q hq h
+theorem edgeql_dollar_single (U : UClass) (s : List Char) (h : dollarExpressible s = true) :
+    ∃ q, dollarQuoteLiteral s = some q ∧ lexAll U q = ([strTok s], none) := by
+  obtain ⟨q, hq⟩ := dollarQuoteLiteral_isSome s
+  exact ⟨q, hq, dollarQuote_lexAll U s q hq h⟩
 
-theorem edgeql_const_single (U : UClass) (s q : List Char)
-    (hq : ppStr s = some q) (h : noNul s = true) :
-    lexAll U q = ([strTok s], none) :=
-  ppStr_lexAll U s q hq (by simpa [noNul, constExpressible] using h)
+theorem edgeql_const_single (U : UClass) (s : List Char) (h : noNul s = true) :
+    ∃ q, ppStr s = some q ∧ lexAll U q = ([strTok s], none) := by
+  obtain ⟨q, hq⟩ := ppStr_isSome s
+  exact ⟨q, hq, ppStr_lexAll U s q hq (by simpa [noNul, constExpressible] using h)⟩
 
 theorem edgeql_bytes_single (U : UClass) (b : List UInt8) :
     lexAll U (ppBytes b) = ([bytesTok b], none) :=
@@ -232,6 +243,76 @@ theorem pg_eliteral_counterexample :
     PgLex.lexEsc (pgQuoteELiteral ['\\']) = .error .unterminated ∧
     PgLex.lexEsc (pgQuoteELiteral ['a', '\\', 'n', 'b']) = .ok (['a', '\n', 'b'], []) := by
   exact ⟨by rfl, by rfl⟩
+
+/-! ## Long names: `edgedb_name_to_pg_name`
+
+PostgreSQL silently truncates identifiers to NAMEDATALEN-1 = 63 BYTES, so
+`pg_ident` needs `utf8Len ≤ 63`.  The code's guard against that is
+`edgedb_name_to_pg_name`: names longer than `MAX_NAME_LENGTH` = 51 are replaced
+by `<md5, base64, 22 chars>:<tail>`.  The md5 digest is a parameter
+(`hash`); what is used of it: 22 characters, ASCII, not NUL. -/
+
+/- FULL STATEMENT (false):
+     ∀ name, edgedbNameToPgName hash name 0 = some r → PgLex.utf8Len r ≤ 63
+   `len(name)` counts CHARACTERS, PostgreSQL counts BYTES: a name of ≤ 51
+   characters that needs more than 63 bytes is returned unchanged. -/
+
+/-- never more than 51 characters (prefix_length ≤ 27; every caller uses 0) -/
+theorem pg_name_length (hash : List Char → List Char) (name r : List Char) (pl : Nat)
+    (hh : (hash name).length = 22) (hpl : pl ≤ 27)
+    (h : edgedbNameToPgName hash name pl = some r) : r.length ≤ 51 :=
+  PgLex.edgedbName_length hash name r pl hh hpl h
+
+/-- For ASCII names (non-empty, no NUL) the result is at most 51 bytes, and
+    `quote_ident` of it (any `force` / `column`) is read back by PostgreSQL as
+    one identifier with exactly that name: no truncation, no collision. -/
+theorem pg_name_partial (P : PyUnicode) (hash : List Char → List Char) (name r rest : List Char)
+    (pl : Nat) (force column : Bool)
+    (hh : (hash name).length = 22) (hha : ∀ c ∈ hash name, c.toNat < 128 ∧ c.toNat ≠ 0)
+    (hna : ∀ c ∈ name, c.toNat < 128 ∧ c.toNat ≠ 0) (hne : name ≠ []) (hpl : pl ≤ 27)
+    (h : edgedbNameToPgName hash name pl = some r)
+    (hd : pgIdentDelim P r force column rest) :
+    PgLex.utf8Len r ≤ 51 ∧
+    ∃ t, PgLex.lexIdent (pgQuoteIdent P r force column ++ rest) = .ok (t, rest) ∧
+      PgLex.PgIdentLike column r t := by
+  have hb := PgLex.edgedbName_bytes_ascii hash name r pl hh (fun c hc => (hha c hc).1)
+    (fun c hc => (hna c hc).1) hpl h
+  have hm := PgLex.edgedbName_mem hash name r pl h
+  have hr : ∀ c ∈ r, c.toNat < 128 ∧ c.toNat ≠ 0 := by
+    intro c hc
+    rcases hm c hc with h1 | h1 | h1
+    · exact hna c h1
+    · exact hha c h1
+    · subst h1; decide
+  refine ⟨hb, pg_ident P r rest force column ?_ hd⟩
+  have hrne := PgLex.edgedbName_nonempty hash name r pl hne h
+  have he : r.isEmpty = false := by cases r <;> simp_all
+  simp only [pgIdentExpressible, he, Bool.not_false, Bool.true_and, Bool.and_eq_true, List.all_eq_true,
+    decide_eq_true_eq, Bool.or_eq_true]
+  refine ⟨⟨fun c hc => by simpa using (hr c hc).2, by omega⟩, ?_⟩
+  by_cases hq : pgNeedsQuoting P r column = true
+  · exact Or.inl (Or.inl hq)
+  · right
+    have hq' : pgNeedsQuoting P r column = false := by simpa using hq
+    simp only [pgNeedsQuoting, Bool.or_eq_false_iff, decide_eq_false_iff_not, Decidable.not_not] at hq'
+    have hl := hq'.2
+    have hall : r.all (fun c => decide (c.toNat < 128)) = true := by
+      simp only [List.all_eq_true, decide_eq_true_eq]; exact fun c hc => (hr c hc).1
+    simp only [pyLower, hall, if_true] at hl
+    have e : PgLex.asciiLower = Lex.asciiLower := rfl
+    rw [e]; exact hl
+
+/-- `名`×25 + `~1` and `名`×25 + `~2` (27 characters, 77 bytes each) are returned
+    unchanged; quoted, PostgreSQL reads BOTH as `名`×21 (63 bytes): two distinct
+    names collide. -/
+theorem pg_name_counterexample (hash : List Char → List Char) :
+    let n1 := List.replicate 25 (Char.ofNat 0x540d) ++ ['~', '1']
+    let n2 := List.replicate 25 (Char.ofNat 0x540d) ++ ['~', '2']
+    edgedbNameToPgName hash n1 0 = some n1 ∧ edgedbNameToPgName hash n2 0 = some n2 ∧ n1 ≠ n2 ∧
+    PgLex.utf8Len n1 = 77 ∧
+    PgLex.lexIdent (pgQuoteIdentRaw n1) = .ok (.ident (List.replicate 21 (Char.ofNat 0x540d)), []) ∧
+    PgLex.lexIdent (pgQuoteIdentRaw n2) = .ok (.ident (List.replicate 21 (Char.ofNat 0x540d)), []) := by
+  refine ⟨by rfl, by rfl, by decide, by decide, by rfl, by rfl⟩
 
 /-! ## What the fixes repaired
 
